@@ -49,7 +49,7 @@ fn canary_of(v: &Canon) -> Option<&'static str> {
 fn gen_stmt(rng: &mut Rng) -> Stmt {
     let k = 1100 + rng.range(0, 3);
     let mk = |sql: String, shape: &'static str, needs: Vec<(&'static str, Pr)>, reads: Vec<&'static str>, writes: Option<&'static str>| Stmt { sql, shape, needs, reads, writes };
-    match rng.below(18) {
+    match rng.below(22) {
         0 => mk("SELECT id, a FROM t1".into(), "scan", vec![("T1", Pr::Select)], vec!["T1"], None),
         1 => mk(format!("SELECT id, a FROM t1 WHERE a = {}", k), "index-scan-eq", vec![("T1", Pr::Select)], vec!["T1"], None),
         2 => mk(format!("SELECT id FROM t1 WHERE a >= {} ORDER BY a", k), "index-scan-range-order", vec![("T1", Pr::Select)], vec!["T1"], None),
@@ -67,6 +67,12 @@ fn gen_stmt(rng: &mut Rng) -> Stmt {
         14 => mk(format!("INSERT INTO t3 VALUES ({}, {})", 3500 + rng.range(0, 400), 3900), "insert", vec![("T3", Pr::Insert)], vec![], Some("T3")),
         15 => mk("UPDATE t3 SET a = 3999 WHERE id = 3001".into(), "update", vec![("T3", Pr::Update)], vec![], Some("T3")),
         16 => mk("DELETE FROM t3 WHERE id = 3002".into(), "delete", vec![("T3", Pr::Delete)], vec![], Some("T3")),
+        // unqualified names shared by both tables: these are not flattened into joins and reach the
+        // expression evaluator's own subquery paths (index lookup, nested execution)
+        17 => mk("SELECT id FROM t2 WHERE a - 1000 IN (SELECT a FROM t1)".into(), "in-subquery-unqualified", vec![("T1", Pr::Select), ("T2", Pr::Select)], vec!["T1", "T2"], None),
+        18 => mk(format!("SELECT id FROM t2 WHERE id - 1000 IN (SELECT id FROM t1 WHERE a BETWEEN {} AND {})", k - 50, k + 50), "in-subquery-unqualified-filtered", vec![("T1", Pr::Select), ("T2", Pr::Select)], vec!["T1", "T2"], None),
+        19 => mk("SELECT id FROM t2 WHERE EXISTS (SELECT 1 FROM t1 WHERE a = 1100)".into(), "exists-subquery-uncorrelated", vec![("T1", Pr::Select), ("T2", Pr::Select)], vec!["T1", "T2"], None),
+        20 => mk("SELECT id, (SELECT MIN(a) FROM t1) FROM t2".into(), "scalar-subquery-unqualified", vec![("T1", Pr::Select), ("T2", Pr::Select)], vec!["T1", "T2"], None),
         _ => mk("SELECT id, a FROM v1".into(), "view", vec![], vec!["T1"], None),
     }
 }
